@@ -19,10 +19,20 @@ import (
 	"time"
 )
 
-const (
-	VerifRoot = "/verif"
-	RepoRoot  = "/repo"
-)
+const VerifRoot = "/verif"
+
+// RepoRoot is the tree under test. The registered commands always use /repo; HV_REPO (development only: running the
+// checks against a scratch worktree that carries a seeded change, several at a time) points it elsewhere, and HV_OUT
+// then receives the evidence and replay directories so that parallel development runs do not touch /verif/evidence.
+var RepoRoot = envOr("HV_REPO", "/repo")
+var OutRoot = envOr("HV_OUT", VerifRoot)
+
+func envOr(k, d string) string {
+	if v := os.Getenv(k); v != "" {
+		return v
+	}
+	return d
+}
 
 // Exit codes of a check.
 const (
@@ -164,6 +174,17 @@ func (c *Ctx) BuildWorker(race bool) (string, error) {
 	args = append(args, out)
 	if race {
 		args = append(args, "-race")
+	}
+	if RepoRoot != "/repo" {
+		// development runs against a scratch worktree: same go.mod with the replace directive redirected
+		mf := filepath.Join(c.Scratch, "go.alt.mod")
+		b, err := os.ReadFile(filepath.Join(VerifRoot, "harness", "go.mod"))
+		if err != nil {
+			return "", err
+		}
+		os.WriteFile(mf, []byte(strings.Replace(string(b), "=> /repo/hermes", "=> "+RepoRoot+"/hermes", 1)), 0644)
+		copyFile(filepath.Join(VerifRoot, "harness", "go.sum"), filepath.Join(c.Scratch, "go.alt.sum"))
+		args = append(args, "-modfile", mf)
 	}
 	args = append(args, "./worker")
 	cmd := exec.Command("go", args...)
@@ -496,7 +517,7 @@ func (c *Ctx) ReportKnown(f *Finding, detail string) {
 
 // NewReplayDir creates /verif/replays/<id>-<seed>-<n>.
 func (c *Ctx) NewReplayDir() string {
-	base := filepath.Join(VerifRoot, "replays")
+	base := filepath.Join(OutRoot, "replays")
 	os.MkdirAll(base, 0755)
 	for n := 1; ; n++ {
 		d := filepath.Join(base, fmt.Sprintf("%s-%d-%d", c.ID, c.Seed, n))
@@ -566,8 +587,8 @@ func (c *Ctx) Finish() int {
 		cov["samples"] = []string{"samples dropped: " + merr.Error()}
 		b, _ = json.MarshalIndent(ev, "", " ")
 	}
-	os.MkdirAll(filepath.Join(VerifRoot, "evidence"), 0755)
-	os.WriteFile(filepath.Join(VerifRoot, "evidence", c.ID+".json"), append(b, '\n'), 0644)
+	os.MkdirAll(filepath.Join(OutRoot, "evidence"), 0755)
+	os.WriteFile(filepath.Join(OutRoot, "evidence", c.ID+".json"), append(b, '\n'), 0644)
 	if !c.Keep {
 		os.RemoveAll(c.Scratch)
 	} else {
